@@ -103,13 +103,13 @@ type Cfg struct {
 func pick(r *rand.Rand, ss []string) string { return ss[r.Intn(len(ss))] }
 
 // captureLit spells a capture limit: mostly 1..3, sometimes zero-padded decimals (still decimal), 0 (no limit)
-// or a two-digit limit.
+// or a two- to four-digit limit (around 128, 256 and beyond).
 func captureLit(r *rand.Rand) string {
 	if r.Intn(12) == 0 {
 		if r.Intn(3) == 0 {
 			return pick(r, []string{"-1", "-2", "+2", "-0", "+1"})
 		}
-		return pick(r, []string{"08", "09", "007", "010", "0", "00", "12", "02", "018"})
+		return pick(r, []string{"08", "09", "007", "010", "0", "00", "12", "02", "018", "127", "128", "129", "200", "255", "256", "257", "300", "1000"})
 	}
 	return string(rune('1' + r.Intn(3)))
 }
@@ -317,6 +317,8 @@ func InstSeg(r *rand.Rand, s *rmodel.Segment, final bool) []string {
 		}
 		if sg.Kind == rmodel.KAll && sg.Capture > 0 && r.Intn(4) == 0 {
 			n = sg.Capture + r.Intn(2) // exactly the limit, or one segment too many
+		} else if sg.Kind == rmodel.KAll && sg.Capture >= 100 {
+			n = sg.Capture - 2 + r.Intn(5) // a three-digit limit is there to be met: two below .. two above
 		}
 		out := make([]string, n)
 		for i := range out {
